@@ -71,6 +71,9 @@ def c01_scenarios(rng, n):
             else:
                 s["tree"]["p.diff"] = ("R", 0o644, text)
             s["opts"]["p"] = depth
+        elif rng.random() < 0.15 and "p.diff" in s["tree"] and s["opts"].get("p") == 1:
+            # names written './path' (diff -u ./f.orig ./f), applied with -p0
+            s = scen.dot_names(s) or s
         scns.append(s)
     # the last line changed, added to or removed, with every combination of "final newline missing" on the two sides, in all formats
     for _ in range(n // 6):
